@@ -22,6 +22,7 @@ import (
 	"com.tuntun.rangers/node/src/consensus/model"
 	middleware_pb "com.tuntun.rangers/node/src/middleware/pb"
 	"com.tuntun.rangers/node/src/middleware/types"
+	"errors"
 	"github.com/gogo/protobuf/proto"
 	"time"
 )
@@ -213,6 +214,9 @@ func unMarshalConsensusBlockMessage(b []byte) (*model.ConsensusBlockMessage, err
 		return nil, e
 	}
 	block := types.PbToBlock(m.Block)
+	if block == nil {
+		return nil, errors.New("unMarshalConsensusBlockMessage: missing or malformed block")
+	}
 	message := model.ConsensusBlockMessage{Block: *block}
 	return &message, nil
 }
